@@ -22,6 +22,7 @@ from xsdata.formats.dataclass.serializers.config import SerializerConfig
 from .. import context_bind as cb
 from .. import sched
 from ..policy import context_cfg
+from ..poly_models import WildOther
 
 XSI = "http://www.w3.org/2001/XMLSchema-instance"
 
@@ -83,6 +84,9 @@ def api_ops(mod):
         "find_derived": lambda c: [cb.id_of(t) for t in list(c.find_types("{urn:a}Derived"))],
         # a MISS: looking a name up must stay a read (another thread may be walking the index)
         "find_unknown": lambda c: [cb.id_of(t) for t in list(c.find_types("{urn:x}Unknown"))],
+        # wildcard namespace matching: XmlVar.match_namespace memoises per field, and the field metadata is shared
+        "parse_wild": lambda c: XmlParser(context=c).from_string(
+            '<w:WildOther xmlns:w="urn:wild" xmlns:e="urn:ext"><w:head>h</w:head><e:ext>t</e:ext><e:ext>u</e:ext></w:WildOther>', WildOther),
     }
 
 
@@ -126,7 +130,9 @@ def explore_api(ctx, ms, scheduler, n_threads, combos, max_pre, limit, traces):
                             f"{name} on a shared context returned {_show(got) if got else None}, alone it returns {_show(alone[name])}",
                             {"combo": combo, "warm": warm, "choices": [d.chosen for d in r.decisions], "trace": r.trace},
                         )
-                # record for trace validation
+                # record for trace validation (the wildcard class lives outside the universe of Trace_ContextT)
+                if "parse_wild" in combo:
+                    continue
                 log = r.xctx.xv_log
                 traces.append({
                     "id": f"api-{int(warm)}-{'+'.join(combo)}-{total}",
@@ -227,7 +233,7 @@ def run(ctx):
 
     # 3. systematic exploration of API-level operations + 4. trace validation
     traces: list = []
-    names = ["parse_xsi", "parse_noclass", "serialize", "json_noclass", "find_derived", "find_unknown"]
+    names = ["parse_xsi", "parse_noclass", "serialize", "json_noclass", "find_derived", "find_unknown", "parse_wild"]
     pairs = [(a, b) for i, a in enumerate(names) for b in names[i:]]
     n = explore_api(ctx, ms, scheduler, 2, pairs, ctx.pick(2, 3), ctx.pick(40, 600), traces)
     triples = [("parse_xsi", "parse_noclass", "serialize"), ("parse_xsi", "find_derived", "json_noclass"),
